@@ -1,7 +1,7 @@
 """C10 Routing entries installed in a chip's router are the entries given."""
 from hypothesis import strategies as st
 
-from vf.core import Clause, Violation, require, sut
+from vf.core import canonical, Clause, Violation, require, sut
 from vf.sim import scamp
 from vf.sim.world import World
 
@@ -73,6 +73,8 @@ def strat_trees(draw, tier):
     for i in range(n):
         keys.append(draw(st.sampled_from(pool[:max(1, (n + 1) // 2)] + pool)))
     return {"w": w, "h": h, "trees": trees, "keys": keys,
+            # equal trees given as one and the same RoutingTree object
+            "alias": draw(st.booleans()),
             # keys are usually allocated for every net of the application,
             # also for those that were not routed (yet)
             "unrouted_keys": draw(st.integers(0, 2))}
@@ -115,7 +117,13 @@ def check_trees(case):
     from rig.routing_table import (routing_tree_to_tables,
                                    MultisourceRouteError)
     nets = [Net(object(), []) for _ in case["trees"]]
-    routes = dict((n, build_tree(t)) for n, t in zip(nets, case["trees"]))
+    built = {}
+    routes = {}
+    for n, t in zip(nets, case["trees"]):
+        k = canonical(t) if case.get("alias") else id(n)
+        if k not in built:
+            built[k] = build_tree(t)
+        routes[n] = built[k]
     keys = dict((n, tuple(k)) for n, k in zip(nets, case["keys"]))
     for i in range(case.get("unrouted_keys", 0)):
         keys[Net(object(), [])] = (0x700 + i, 0xfff)
